@@ -59,6 +59,26 @@ type RuleFactory struct{ R *genesis.Rules }
 
 func (f RuleFactory) GetRules(int64) chain.Rules { return f.R }
 
+// SwitchRules is a rule factory with scheduled rule changes: Before for
+// timestamps below At, After from At on and, if Later is set, Later for
+// timestamps above Until.
+type SwitchRules struct {
+	Before, After *genesis.Rules
+	At            int64
+	Later         *genesis.Rules
+	Until         int64
+}
+
+func (f SwitchRules) GetRules(t int64) chain.Rules {
+	if t < f.At {
+		return f.Before
+	}
+	if f.Later != nil && t > f.Until {
+		return f.Later
+	}
+	return f.After
+}
+
 // NewDB loads kv into a fresh merkledb over memdb.
 func NewDB(kv map[string][]byte) (merkledb.MerkleDB, error) {
 	db, err := merkledb.New(context.Background(), memdb.New(), merkledb.Config{
@@ -116,6 +136,11 @@ type ExecConfig struct {
 
 // NewProcessor builds a real chain.Processor over the fixture's handlers.
 func NewProcessor(r *genesis.Rules, vw chain.ValidityWindow, cfg ExecConfig, engines chain.AuthEngines) (*chain.Processor, workers.Workers) {
+	return NewProcessorRF(RuleFactory{r}, vw, cfg, engines)
+}
+
+// NewProcessorRF is NewProcessor over an arbitrary rule factory.
+func NewProcessorRF(rf chain.RuleFactory, vw chain.ValidityWindow, cfg ExecConfig, engines chain.AuthEngines) (*chain.Processor, workers.Workers) {
 	var w workers.Workers
 	if cfg.AuthWorkers <= 0 {
 		w = workers.NewSerial()
@@ -125,7 +150,7 @@ func NewProcessor(r *genesis.Rules, vw chain.ValidityWindow, cfg ExecConfig, eng
 	c := chain.NewDefaultConfig()
 	c.TransactionExecutionCores = cfg.Cores
 	c.StateFetchConcurrency = cfg.Fetch
-	p := chain.NewProcessor(trace.Noop, logging.NoLog{}, RuleFactory{r}, w, engines, Metadata(), BalanceHandler(), vw, Metrics(), c)
+	p := chain.NewProcessor(trace.Noop, logging.NoLog{}, rf, w, engines, Metadata(), BalanceHandler(), vw, Metrics(), c)
 	return p, w
 }
 
